@@ -423,9 +423,7 @@ def harness(name, kind):
         r = pm.rating
         g4 = [[r(6 * b, 2 * b)], [r(5 * b, b), r(7 * b, s)], [r(4 * b, 3 * b)], [r(6.5 * b, 0.5 * b)]]
         g5 = [[r((4 + i) * b, (0.5 + 0.5 * i) * b)] for i in range(5)]
-        out = [_bits(pm.predict_win(g4)), _bits(pm.predict_draw(g4)), _bits(pm.predict_rank(g4)),
-               _bits(pm.predict_win(g5)), _bits(pm.predict_draw(g5)), _bits(pm.predict_rank(g5)),
-               _bits(pm.rate(g4, ranks=[2, 0, 1, 1])), _bits(pm.rate(g5, scores=[3, 1, 4, 1, 5]))]
+        out = [_bits(pm.predict_win(g5)), _bits(pm.predict_draw(g4)), _bits(pm.predict_rank(g5)), _bits(pm.rate(g4, ranks=[2, 0, 1, 1]))]
         return out
 
     mk.probe = probe
